@@ -1,5 +1,5 @@
-\* C33, faithful model: "after a reset all logs are exported again" as a liveness property.  DESIGN.md section 8 suspects it fails
-\* (late StorePipelineState of the old subscriber after ResetPipeline cleared last_log_id); checks/C33.py records the outcome.
+\* Negative control (model of the code BEFORE /repo 9ae9635, JoinSubscriber = FALSE: nobody waits for the subscriber of a
+\* stopped pipeline).  TLC MUST refute LiveAllAcceptedSinceReset.
 SPECIFICATION FairSpec
 CONSTANTS
   MaxLogs = 2
